@@ -97,6 +97,9 @@ type Input struct {
 	// MustResolve: every DocPath / FieldPath names a leaf of the document: the resolvers must succeed
 	// and the resolved path must have an existence proof
 	MustResolve bool `json:"must_resolve,omitempty"`
+	// Restored: afterwards the merklizer is marshalled, restored with MerklizerFromBytes under the same
+	// options, and the member / non-member oracle runs again on the restored merklizer
+	Restored bool `json:"restored,omitempty"`
 	// TwinFirst: the print-twins of the member paths are queried BEFORE the members (else after)
 	TwinFirst bool `json:"twin_first,omitempty"`
 	DefaultFamily int `json:"default_family,omitempty"`
@@ -851,7 +854,7 @@ func (e *Env) ProofPath(s *Scen, pk int, p merklize.Path, family string) {
 	// a path of a stored entry built through the merklizer's own options (or, while the package
 	// default is still the hasher the merklizer was built with, by the package constructor) must
 	// hash to the entry's key
-	if (family == "member" || family == "shared-member" || family == "built" || family == "arg-slice-member") &&
+	if (family == "member" || family == "shared-member" || family == "built" || family == "arg-slice-member" || family == "restored-member") &&
 		!isMember && (pk != 1 || (s.Rd2 == nil && !s.Cfg)) {
 		e.Rep.Fail(e.Prop+"-member-key", fmt.Sprintf("path %v of a stored entry (api %d) does not hash to the key the entry is stored under", parts, pk), in)
 	}
@@ -1516,6 +1519,47 @@ func (e *Env) SharedScenario(in SharedInput) *Shared {
 	return sh
 }
 
+// restoredVariant: MarshalBinary -> MerklizerFromBytes with the same options; the restored merklizer
+// must have the same root and answer every member / non-member query like the original (the Coq model
+// evaluates the new steps on the SAME model merklizer).
+func (e *Env) restoredVariant(s *Scen) {
+	b, err := s.Mz.MarshalBinary()
+	if err != nil {
+		e.Rep.Fail(e.Prop+"-restore-error", "MarshalBinary failed: "+err.Error(), s.In)
+		return
+	}
+	opts := []merklize.MerklizeOption{merklize.WithDocumentLoader(e.Loader)}
+	if s.Cfg {
+		opts = append(opts, merklize.WithHasher(s.Rc))
+	}
+	mz2, err := merklize.MerklizerFromBytes(b, opts...)
+	if err != nil {
+		e.Rep.Fail(e.Prop+"-restore-error", "MerklizerFromBytes with the same options failed: "+err.Error(), s.In)
+		return
+	}
+	e.Rep.Count("restored-merklizer")
+	if mz2.Root().BigInt().Cmp(s.Mz.Root().BigInt()) != 0 {
+		e.Rep.Fail(e.Prop+"-restored-root", "the merklizer restored from bytes with the same options has a different root", s.In)
+	}
+	s.Mz = mz2
+	e.RootStep(s)
+	for _, v := range s.Entries {
+		e.Proof(s, 0, v.Parts, "restored-member")
+		e.EntryStep(s, 0, v.Parts)
+	}
+	nm := e.NonMembers(s, 1)
+	var fams []string
+	for k := range nm {
+		fams = append(fams, k)
+	}
+	sort.Strings(fams)
+	for _, fam := range fams {
+		for _, parts := range nm[fam] {
+			e.Proof(s, 0, parts, "restored-"+fam)
+		}
+	}
+}
+
 // ---------- the C02 driver ----------
 
 func (e *Env) c02Scenario(in Input) *Scen {
@@ -1584,6 +1628,9 @@ func (e *Env) c02Scenario(in Input) *Scen {
 	if e.Cfg.Rng.Intn(4) == 0 {
 		e.Proof(s, 0, []any{}, "empty")
 		e.EntryStep(s, 0, []any{})
+	}
+	if in.Restored && (s.Cfg || in.SetAfter == 0) {
+		e.restoredVariant(s)
 	}
 	return s
 }
@@ -1717,7 +1764,7 @@ func Run(cfg *common.Config) (*common.Report, error) {
 		}
 		all := loadCtx(e.Loader, g)
 		hi := hs[cfg.Rng.Intn(len(hs))]
-		in := Input{Doc: doc.Bytes, Ctx: ctxFor(doc.Bytes, all), Hasher: hi, Cfg: i%3 != 0, DSLevel: i%4 == 1, RngSeed: cfg.Rng.Int63(), TwinFirst: i%2 == 1}
+		in := Input{Doc: doc.Bytes, Ctx: ctxFor(doc.Bytes, all), Hasher: hi, Cfg: i%3 != 0, DSLevel: i%4 == 1, RngSeed: cfg.Rng.Int63(), TwinFirst: i%2 == 1, Restored: i%4 == 2}
 		if !in.Cfg {
 			in.Hasher = 0
 			switch (i / 3) % 3 {
@@ -1756,6 +1803,7 @@ func Run(cfg *common.Config) (*common.Report, error) {
 	// hand-written documents whose listed paths are all leaves (digit-leading terms, re-declared type term)
 	for i, hi := range []int{0, 1, 5} {
 		for _, in := range FixedInputs(hi, i > 0, cfg.Rng) {
+			in.Restored = true
 			rep.Distinct(fmt.Sprintf("fixed|%s|%d|%v", in.Doc, in.Hasher, in.Cfg))
 			rep.Count("fixed-document")
 			s := e.c02Scenario(in)
